@@ -400,7 +400,30 @@ def close(a, b, tol=TOL, floor=0.0):
     return a == b
 
 
-def first_diff(ta, tb):
+def noise_table(ta, tb):
+    """{(row, column): |a-b|} between the original instance and its exact in-memory copy (None when unavailable)"""
+    if not ta or not tb or len(ta) != len(tb):
+        return None
+    out = {}
+    for i, (ra, rb) in enumerate(zip(ta, tb)):
+        for h in ra:
+            if isinstance(ra[h], float) and isinstance(rb.get(h), float):
+                out[(i, h)] = abs(ra[h] - rb[h])
+    return out
+
+
+def rel_noise(ta, tb):
+    m = 0.0
+    for ra, rb in zip(ta, tb):
+        for h in ra:
+            a, b = ra[h], rb.get(h)
+            if isinstance(a, float) and isinstance(b, float) and max(abs(a), abs(b)) >= DOMAIN and not str(h).startswith(("d_", "dk_")) \
+                    and h not in ("charge(eq)", "Alk(eq/kgw)"):
+                m = max(m, abs(a - b) / max(abs(a), abs(b)))
+    return m
+
+
+def first_diff(ta, tb, tol=TOL, noise=None):
     """(row, column, a, b) of the first out-of-tolerance cell, or a string for structural differences, or None"""
     if len(ta) != len(tb):
         return "row count %d vs %d" % (len(ta), len(tb))
@@ -411,12 +434,17 @@ def first_diff(ta, tb):
         for h in ra:
             if isinstance(h, str) and h.startswith(("d_", "dk_")):
                 continue
+            fl = 3.0 * noise.get((i, h), 0.0) if noise else 0.0
             if h in ("charge(eq)", "Alk(eq/kgw)") and isinstance(mu, float) and isinstance(ra[h], float) and isinstance(rb[h], float):
                 # sums with cancellation: relative to the ionic strength (the size of the terms), not to the remainder
-                if abs(ra[h] - rb[h]) <= TOL * max(abs(ra[h]), abs(rb[h]), abs(mu)):
+                if abs(ra[h] - rb[h]) <= tol * max(abs(ra[h]), abs(rb[h]), abs(mu)) + fl:
                     continue
                 return (i, h, ra[h], rb[h])
-            if not close(ra[h], rb[h]):
+            if isinstance(ra[h], float) and isinstance(rb[h], float) and fl > 0.0:
+                if max(abs(ra[h]), abs(rb[h])) < DOMAIN or abs(ra[h] - rb[h]) <= tol * max(abs(ra[h]), abs(rb[h])) + fl:
+                    continue
+                return (i, h, ra[h], rb[h])
+            if not close(ra[h], rb[h], tol):
                 return (i, h, ra[h], rb[h])
     return None
 
@@ -737,6 +765,7 @@ def run_round_trip(ctx, cases, static_defects, kw2cls, timeout_each=25):
             for d in real:
                 ex = explain([d[1]])
                 if ex:
+                    c.lost_items = getattr(c, "lost_items", []) + [ex[0]]
                     add(c, "schema:%s:%s" % (ex[0][0], ex[0][1]), "value written by DUMP is not restored by reading it back (%s %s is %s)" % ex[0],
                         {"first_dump": d[2].strip(), "second_dump": d[3].strip()}, "identical lines")
                 else:
@@ -769,37 +798,9 @@ def run_round_trip(ctx, cases, static_defects, kw2cls, timeout_each=25):
                 d = diffs[0] if diffs else ("?", "?", "", "", False)
                 add(c, "fresh:%s:-%s" % (d[0], d[1]), "restoring into a fresh instance gives a different state than restoring into the same instance",
                     {"same_instance": d[2].strip(), "fresh_instance": d[3].strip()}, "identical text")
-        # follow-up calculations
-        fo, fr = B.get(c.id + "/Fo") or {}, B.get(c.id + "/Fr") or {}
-        pairs = [("same-instance", fo, fr)]
-        if c.kind == "gen":
-            pairs.append(("fresh-instance", fo, B.get(c.id + "/Ff") or {}))
-        for label, o, r in pairs:
-            if o.get("timeout") or o.get("rc") != 0 or "97" not in (o.get("tables") or {}):
-                continue                                   # follow-up fails on the original too: outside premises
-            if r.get("timeout") or r.get("crash"):
-                add(c, "followup:%s:no-return" % label, "follow-up RUN_CELLS on the restored state does not return", "", "same results")
-                continue
-            to = vlib.table_dicts(o["tables"]["97"])
-            if r.get("rc") != 0 or "97" not in (r.get("tables") or {}):
-                add(c, "followup:%s:error:%s" % (label, err_signature(r.get("err"))), "follow-up RUN_CELLS fails on the restored state but not on the original",
-                    (r.get("err") or "")[:600], "same results", {"followup": c.follow})
-                continue
-            tr = vlib.table_dicts(r["tables"]["97"])
-            stats["followup_cells"] += len(to)
-            d = first_diff(to, tr)
-            if isinstance(d, str):
-                add(c, "followup:%s:shape" % label, "follow-up RUN_CELLS differs between original and restored state (%s): %s" % (label, d),
-                    d, "same table shape", {"followup": c.follow})
-            elif d:
-                pre = c.defs if label == "fresh-instance" else c.text + "\nEND\nDELETE\n -all\nEND\n"
-                pending.append({"c": c, "label": label, "d": d, "user": "97", "orig": to,
-                                "text": lambda nd, pre=pre, c=c: pre + truncate_digits(c.d1, nd) + "\nEND\n" + c.follow,
-                                "what": "follow-up RUN_CELLS differs between original and restored state (%s)" % label,
-                                "key": "followup:%s:%s" % (label, d[1]), "extra": {"followup": c.follow}})
-        # in-memory storage-bin copy and binary serialisation copy
+        # in-memory storage-bin copy and binary serialisation copy (harness/c10_bin.cpp): exact copies of the state
         rbn = BIN.get(c.id) or {}
-        c.bin_orig = None
+        c.bin_orig = c.bin_copy = c.ser_copy = None
         if rbn.get("timeout") or rbn.get("crash"):
             add(c, "copy:%s" % ("timeout" if rbn.get("timeout") else "crash"), "copying the state through cxxStorageBin / Serializer %s" %
                 ("does not return" if rbn.get("timeout") else "crashes"), rbn.get("stderr", "")[:500], "normal return")
@@ -828,8 +829,7 @@ def run_round_trip(ctx, cases, static_defects, kw2cls, timeout_each=25):
                             {"original": d[2].strip()[:200], "copy": d[3].strip()[:200], "n_differing_lines": len(diffs)}, "identical RAW text")
             ro = rbn.get("orig") or {}
             if ro.get("rc") == 0 and "97" in (ro.get("tables") or {}):
-                tob = vlib.table_dicts(ro["tables"]["97"])
-                c.bin_orig = tob
+                c.bin_orig = vlib.table_dicts(ro["tables"]["97"])
                 for tag in ("bin", "ser"):
                     rr = rbn.get(tag) or {}
                     if rr.get("rc") != 0 or "97" not in (rr.get("tables") or {}):
@@ -839,11 +839,64 @@ def run_round_trip(ctx, cases, static_defects, kw2cls, timeout_each=25):
                     trb = vlib.table_dicts(rr["tables"]["97"])
                     if tag == "bin":
                         c.bin_copy = trb
-                    d = first_diff(tob, trb)
+                    else:
+                        c.ser_copy = trb
+                # (i) the two copies live in equally fresh instances and hold the same numbers: their results must agree (strictly)
+                if c.bin_copy is not None and c.ser_copy is not None:
+                    d = first_diff(c.bin_copy, c.ser_copy)
                     if d:
-                        add(c, "followup:%s:%s" % (tag, d if isinstance(d, str) else d[1]),
-                            "follow-up RUN_CELLS differs between the original and its %s copy: %s" % (tag, (d if isinstance(d, str) else "row %d column %s: %r vs %r" % d)),
-                            str(d), "relative difference <= 1e-7", {"followup": c.follow})
+                        add(c, "followup:ser-vs-bin:%s" % (d if isinstance(d, str) else d[1]),
+                            "follow-up RUN_CELLS differs between the storage-bin copy and the Serializer copy of the same state: %s" %
+                            (d if isinstance(d, str) else "row %d column %s: %r vs %r" % d), str(d), "relative difference <= 1e-7", {"followup": c.follow})
+                # (ii) original instance (with its history) vs exact copy in a fresh instance: the solver's path depends on the
+                # instance's history, so the difference measures the reproducibility ("noise") of each cell; only gross
+                # differences (1e-5) are findings here -- a lost member is caught exactly by the RAW text comparison above
+                if c.bin_copy is not None:
+                    d = first_diff(c.bin_orig, c.bin_copy, tol=100 * TOL)
+                    if d:
+                        add(c, "followup:bin:%s" % (d if isinstance(d, str) else d[1]),
+                            "follow-up RUN_CELLS differs grossly between the original and its exact in-memory copy: %s" %
+                            (d if isinstance(d, str) else "row %d column %s: %r vs %r" % d), str(d), "relative difference <= 1e-5", {"followup": c.follow})
+                    else:
+                        rn = rel_noise(c.bin_orig, c.bin_copy)
+                        stats["max_rel_noise_exact_copy"] = max(stats.get("max_rel_noise_exact_copy", 0.0), rn)
+                        if rn > TOL:
+                            stats["cases_exact_copy_beyond_1e-7"] = stats.get("cases_exact_copy_beyond_1e-7", 0) + 1
+        noise = noise_table(c.bin_orig, c.bin_copy)
+        rn_case = min(rel_noise(c.bin_orig, c.bin_copy), 100 * TOL) if (c.bin_orig and c.bin_copy and len(c.bin_orig) == len(c.bin_copy)) else 0.0
+        # follow-up calculations on the text-restored state
+        fo, fr = B.get(c.id + "/Fo") or {}, B.get(c.id + "/Fr") or {}
+        pairs = [("same-instance", fo, fr, None)]
+        if c.kind == "gen":
+            pairs.append(("fresh-instance", fo, B.get(c.id + "/Ff") or {}, c.bin_copy))
+        for label, o, r, ref in pairs:
+            if o.get("timeout") or o.get("rc") != 0 or "97" not in (o.get("tables") or {}):
+                continue                                   # follow-up fails on the original too: outside premises
+            if r.get("timeout") or r.get("crash"):
+                add(c, "followup:%s:no-return" % label, "follow-up RUN_CELLS on the restored state does not return", "", "same results")
+                continue
+            to = vlib.table_dicts(o["tables"]["97"])
+            if r.get("rc") != 0 or "97" not in (r.get("tables") or {}):
+                add(c, "followup:%s:error:%s" % (label, err_signature(r.get("err"))), "follow-up RUN_CELLS fails on the restored state but not on the original",
+                    (r.get("err") or "")[:600], "same results", {"followup": c.follow})
+                continue
+            tr = vlib.table_dicts(r["tables"]["97"])
+            stats["followup_cells"] += len(to)
+            if ref is not None and len(ref) == len(to):
+                # fresh instance + text  vs  fresh instance + exact copy: no history on either side, strict 1e-7
+                d = first_diff(ref, tr)
+            else:
+                # against the original instance: 1e-7 plus three times the measured irreproducibility of that cell
+                d = first_diff(to, tr, noise=noise)
+            if isinstance(d, str):
+                add(c, "followup:%s:shape" % label, "follow-up RUN_CELLS differs between original and restored state (%s): %s" % (label, d),
+                    d, "same table shape", {"followup": c.follow})
+            elif d:
+                pre = c.defs if label == "fresh-instance" else c.text + "\nEND\nDELETE\n -all\nEND\n"
+                pending.append({"c": c, "label": label, "d": d, "user": "97", "orig": to,
+                                "text": lambda nd, pre=pre, c=c: pre + truncate_digits(c.d1, nd) + "\nEND\n" + c.follow,
+                                "what": "follow-up RUN_CELLS differs between original and restored state (%s)" % label,
+                                "key": "followup:%s:%s" % (label, d[1]), "extra": {"followup": c.follow}})
         # SOLUTION_MODIFY with totals / total_h / total_o / cb only
         if c.mod:
             mo, mr = B.get(c.id + "/Mo") or {}, B.get(c.id + "/Mr") or {}
@@ -854,7 +907,9 @@ def run_round_trip(ctx, cases, static_defects, kw2cls, timeout_each=25):
                         {"modify": c.mod[0] + "END\n" + c.mod[1]})
                 else:
                     tmo = vlib.table_dicts(mo["tables"]["96"])
-                    d = first_diff(tmo, vlib.table_dicts(mr["tables"]["96"]))
+                    # (both runs happen in the instance that holds the history; allow three times the relative irreproducibility
+                    # measured for this case between the original and its exact copy)
+                    d = first_diff(tmo, vlib.table_dicts(mr["tables"]["96"]), tol=TOL + 3 * rn_case)
                     if isinstance(d, str):
                         add(c, "modify:shape", "SOLUTION_MODIFY restore path: %s" % d, d, "same table shape")
                     elif d:
@@ -903,9 +958,9 @@ def run_round_trip(ctx, cases, static_defects, kw2cls, timeout_each=25):
             copy_ok = False
             try:
                 if p["label"] != "modify":
-                    copy_ok = close(cc.bin_orig[i][h], cc.bin_copy[i][h]) and close(cc.bin_orig[i][h], a, 1e-9)
+                    copy_ok = close(cc.bin_orig[i][h], cc.bin_copy[i][h], 100 * TOL)
                 else:
-                    copy_ok = getattr(cc, "bin_copy", None) is not None and first_diff(cc.bin_orig, cc.bin_copy) is None
+                    copy_ok = cc.bin_copy is not None and first_diff(cc.bin_orig, cc.bin_copy, tol=100 * TOL) is None
             except Exception:
                 copy_ok = False
             text_ok = getattr(cc, "text_restored", False)
@@ -916,6 +971,13 @@ def run_round_trip(ctx, cases, static_defects, kw2cls, timeout_each=25):
                     {"cell": desc, "deviation_with_14_digits": dev14, "deviation_with_13_and_12_digits": devs, "path": p["label"],
                      "in_memory_copy_agrees_with_original": copy_ok, "text_fully_restored": text_ok},
                     "relative difference <= 1e-7", p["extra"])
+            elif getattr(cc, "lost_items", None) and dev14 is not None and dev14 <= 100 * TOL * max(abs(float(a)), abs(float(b))):
+                # the restored state is known to lack a written value (an item Coq classifies as dropped/broken, reported under
+                # its own key with this input); a slight (< 1e-5) follow-up deviation is its consequence, not a new finding
+                li = cc.lost_items[0]
+                add(cc, "schema:%s:%s" % (li[0], li[1]),
+                    "%s %s is not restored from the DUMP text (%s) and follow-up results on the restored state deviate slightly: %s" % (li[0], li[1], li[2], desc),
+                    {"cell": desc, "deviation": dev14, "deviation_with_13_and_12_digits": devs, "path": p["label"]}, "relative difference <= 1e-7", p["extra"])
             else:
                 add(p["c"], p["key"], p["what"] + ": " + desc,
                     {"cell": desc, "deviation_with_14_digits": dev14, "deviation_with_13_and_12_digits": devs, "scales_with_digits": scaled,
